@@ -73,6 +73,13 @@ pub(crate) struct FlushWorker<T: Types> {
     /// `Relaxed` is sufficient because the actual data synchronization is
     /// provided by the `RwLock` on `PayloadCache`.
     done_seq: Arc<AtomicU64>,
+    /// Whether the most recent sync failed. Chunk files must not be removed
+    /// while the purge record that makes them obsolete may not be durable.
+    last_sync_failed: bool,
+    /// Chunk files whose removal was postponed because the sync before it
+    /// failed. They are removed, oldest first, with the next removal request
+    /// that follows a successful sync.
+    postponed_removals: Vec<String>,
 }
 
 impl<T: Types> FlushWorker<T> {
@@ -97,6 +104,8 @@ impl<T: Types> FlushWorker<T> {
             files: vec![file_entry],
             cache,
             done_seq,
+            last_sync_failed: false,
+            postponed_removals: Vec::new(),
         }
     }
 
@@ -169,6 +178,10 @@ impl<T: Types> FlushWorker<T> {
                     Ok(())
                 };
 
+                if need_sync {
+                    self.last_sync_failed = sync_result.is_err();
+                }
+
                 for w in batch {
                     if let Some(cb) = w.callback {
                         match &sync_result {
@@ -224,7 +237,15 @@ impl<T: Types> FlushWorker<T> {
             }
             WorkerRequest::RemoveChunks { chunk_paths } => {
                 info!("FlushWorker: RemoveChunks: {:?}", chunk_paths);
-                for path in chunk_paths {
+                self.postponed_removals.extend(chunk_paths);
+                if self.last_sync_failed {
+                    log::error!(
+                        "FlushWorker: last sync failed, keep chunks: {:?}",
+                        self.postponed_removals
+                    );
+                    return Ok(());
+                }
+                for path in std::mem::take(&mut self.postponed_removals) {
                     std::fs::remove_file(path)?;
                 }
             }
